@@ -30,6 +30,30 @@ func Shrink(sc *Scenario, stillFails func(*Scenario) bool, budget int) *Scenario
 			}
 			sh.cur, progress = c, true
 		}
+		// preemption points: tail first (what follows the violation is irrelevant), then blocks of
+		// halving size; single points are left to the pass below
+		for len(sh.cur.Points) > 1 && sh.tries < sh.budget {
+			c := sh.cur.Clone()
+			c.Points = c.Points[:len(c.Points)/2]
+			sh.tries++
+			if !sh.test(c) {
+				break
+			}
+			sh.cur, progress = c, true
+		}
+		for chunk := len(sh.cur.Points) / 2; chunk >= 2 && sh.tries < sh.budget; chunk /= 2 {
+			for i := len(sh.cur.Points) - chunk; i >= 0 && sh.tries < sh.budget; i -= chunk {
+				if i+chunk > len(sh.cur.Points) {
+					continue
+				}
+				c := sh.cur.Clone()
+				c.Points = append(c.Points[:i], c.Points[i+chunk:]...)
+				sh.tries++
+				if sh.test(c) {
+					sh.cur, progress = c, true
+				}
+			}
+		}
 		for _, p := range shrinkPasses {
 			if sh.pass(p) {
 				progress = true
@@ -353,6 +377,11 @@ var shrinkPasses = []shrinkPass{
 		c.Sites = append(c.Sites[:i], c.Sites[i+1:]...)
 		return c
 	}},
+	{"point", func(s *Scenario) int { return len(s.Points) }, func(s *Scenario, i int) *Scenario {
+		c := s.Clone()
+		c.Points = append(c.Points[:i], c.Points[i+1:]...)
+		return c
+	}},
 	{"schedule", func(s *Scenario) int { return len(s.Schedule) }, func(s *Scenario, i int) *Scenario {
 		c := s.Clone()
 		c.Schedule = append(c.Schedule[:i], c.Schedule[i+1:]...)
@@ -374,5 +403,16 @@ func dropClient(sc *Scenario, i int) *Scenario {
 		}
 	}
 	c.Schedule = ns
+	var np []PPoint
+	for _, pt := range c.Points {
+		switch {
+		case pt.To == i:
+		case pt.To > i:
+			np = append(np, PPoint{pt.At, pt.To - 1})
+		default:
+			np = append(np, pt)
+		}
+	}
+	c.Points = np
 	return c
 }
